@@ -527,7 +527,7 @@ def h5_struct(tree=0, timeout=200, part=None, exclude=(), **kw):
 def _spell(v, k=0):
     """a reference writer that varies the spelling with position k: octal / named / literal escapes and line continuations in strings, white space inside hex strings,
     #xx escapes in names, comments and every end-of-line convention between tokens.  Returns bytes."""
-    SEPS = [b" ", b"\n", b"\r\n", b"\t", b" % c\n", b"\x0c", b"  "]
+    SEPS = [b" ", b"\n", b"\r\n", b"\t", b" % c\n", b"\x0c", b"  ", b"%comment (x\r", b" %\r\n"]
     if v is None:
         return b"null"
     if v is True or v is False:
